@@ -73,8 +73,12 @@ def sg():
 
 
 def all_dialects() -> list:
+    """the Dialects enum united with sqlglot.dialects.DIALECT_MODULE_NAMES (the enum has no singlestore entry)"""
     *_, Dialects, _, _, _, _, _ = sg()
-    return [d.value or None for d in Dialects]
+    import sqlglot.dialects as D
+
+    names = {d.value for d in Dialects if d.value} | set(getattr(D, "DIALECT_MODULE_NAMES", []))
+    return [None] + sorted(names)
 
 
 _TOK_CACHE: dict = {}
@@ -237,6 +241,25 @@ def token_error_violation(sql: str, e):
     return None
 
 
+def meta_lexeme(exp, node):
+    """the lexeme a node with position meta claims to describe, for the classes where that is unambiguous (else None)"""
+    if isinstance(node, exp.Identifier):
+        return node.this if isinstance(node.this, str) else None
+    if isinstance(node, exp.Star):
+        return "*"
+    if isinstance(node, exp.Literal):
+        return node.this if isinstance(node.this, str) else None
+    if isinstance(node, exp.Column):
+        if isinstance(node.this, exp.Star):
+            return "*"
+        return node.name or None
+    if isinstance(node, exp.Table):
+        return node.name or None
+    if isinstance(node, (exp.Var, exp.Anonymous)):
+        return node.this if isinstance(node.this, str) else None
+    return None
+
+
 def parse_violation(sql: str, d):
     """ParseError line/col/highlight select a lexeme; meta positions of identifiers/columns/tables select their lexeme."""
     _, exp, _, _, TT, TokenError, ParseError, ErrorLevel, _ = sg()
@@ -247,7 +270,10 @@ def parse_violation(sql: str, d):
         return None
     if token_violation(sql, d, toks) is not None:
         return None  # token-level defects are reported by the token oracle; positions built on them are not re-reported
-    bypos = {(t.start, t.end): t for t in toks if not (t.token_type == TT.HIVE_TOKEN_STREAM and t.text == "")}
+    bypos: dict = {}  # span -> tokens (a numeric suffix yields three tokens on one span)
+    for t in toks:
+        if not (t.token_type == TT.HIVE_TOKEN_STREAM and t.text == ""):
+            bypos.setdefault((t.start, t.end), []).append(t)
     ctx = 100
     for level in (ErrorLevel.RAISE, ErrorLevel.IMMEDIATE):
         p = dl.parser(error_level=level)
@@ -259,7 +285,7 @@ def parse_violation(sql: str, d):
                 sc, ec = err.get("start_context"), err.get("end_context")
                 if ln is None and co is None and hl is None:
                     continue
-                cands = [t for t in bypos.values() if t.line == ln and t.col == co]
+                cands = [t for ts in bypos.values() for t in ts if t.line == ln and t.col == co]
                 ok = False
                 for t in cands:
                     if hl == sql[t.start:t.end + 1] and sc == sql[max(0, t.start - ctx):t.start] and ec == sql[t.end + 1:t.end + 1 + ctx]:
@@ -280,14 +306,22 @@ def parse_violation(sql: str, d):
                 m = node._meta
                 if not m or "start" not in m or m.get("start") is None:
                     continue
-                if not isinstance(node, (exp.Identifier, exp.Column, exp.Table)):
-                    continue  # the property speaks of identifiers, columns and tables (synthetic Star/Literal nodes carry defaults)
-                t = bypos.get((m["start"], m["end"]))
-                if t is None or t.line != m.get("line") or t.col != m.get("col"):
-                    return ("meta", "pos", -1, f"{type(node).__name__} meta {m} does not coincide with a token span")
-                if isinstance(node, exp.Identifier) and isinstance(node.this, str):
-                    if t.text != node.this and t.text.upper() != node.this.upper():
-                        return ("meta", "name", -1, f"Identifier {node.this!r} carries the span of lexeme {sql[t.start:t.end + 1]!r}")
+                # EVERY node that carries position meta, whatever its class: the recorded span must be a token of the input
+                cls = type(node).__name__
+                ts = [t for t in bypos.get((m["start"], m["end"]), []) if t.line == m.get("line") and t.col == m.get("col")]
+                t = ts[0] if ts else None
+                if t is None:
+                    cause = "pos"
+                    if (isinstance(node, exp.Star) and (m.get("line"), m.get("col"), m["start"], m["end"]) == (1, 1, 0, 0)
+                            and sql[:1] != "*"):
+                        cause = "synthetic-star"  # a Star built by parsing the one-character text "*" (FROM-first / pipe syntax)
+                    return ("meta", cause, -1, f"{cls} meta {m} does not coincide with a token span")
+                # classes with an obvious lexeme: the token the span selects must be that lexeme
+                want = meta_lexeme(exp, node)
+                if want is not None and not any(x.text == want or x.text.upper() == want.upper() for x in ts):
+                    cause = "name" if isinstance(node, exp.Identifier) else "lexeme"
+                    return ("meta", cause, -1, f"{cls} {want!r} carries the span of lexeme {sql[t.start:t.end + 1]!r} "
+                                               f"(line {m.get('line')} col {m.get('col')} start {m['start']} end {m['end']})")
     return None
 
 
@@ -480,6 +514,18 @@ TEMPLATES = [
     "select {i} from {i} /* c\n */ where -- x\n {i} = 'a\nb' and {i} = ",
     "select 'a\rb', {i} from {i} where )",
     "select cast({i} as int), {i}::text from {i} as",
+    # star projections with every modifier, qualified stars, multi-line
+    "select * from {i}",
+    "select {i}.* from {i}",
+    "select *{s}except ({i}, {i}) from {i}",
+    "select {i},{s}* exclude ({i}){s}from {i}",
+    "select * replace ({i} + 1 as {i}) from {i}",
+    "select {i}.*{s}rename ({i} as {i}){s}from {i}",
+    "select * ilike '%id%' from {i}",
+    "select *{s}exclude ({i}){s}replace ({i} as {i}){s}rename ({i} as {i}) from {i}",
+    "select {i}.{i}.* except ({i}),{s}count(*), 1, 'x' from {i}.{i}",
+    "select{s}*{s}except{s}({i}{s}){s}, {i}.* replace ({i} as {i}) from {i} where {i} = 1.5",
+    "from {i} select * exclude ({i})",
 ]
 
 
@@ -799,6 +845,9 @@ def canon(s: str):
 WITNESSES = [
     (None, "'a\rb' x"), (None, "\"a\rb\" x"), (None, "GROUP\nBY x"), (None, "order\r\nby a"), (None, "show tables foo"),
     (None, "show b "), ("postgres", "$a\nb c"), ("duckdb", "$\n"), ("bigquery", "select a from proj-1.db.tbl"),
+    ("bigquery", "SELECT * EXCEPT (a, b) FROM t"), ("snowflake", "SELECT * ILIKE '%id%' FROM t"),
+    ("snowflake", "select a,\n  t.* rename (a as b)\nfrom t"), ("duckdb", "select * exclude (a) replace (b as c) from t"),
+    ("duckdb", "from t"), ("clickhouse", "$a\nb$$a\nb$ x"),
 ]
 
 
